@@ -224,7 +224,8 @@ def run_complete(seq, cached, move, F, fk, acc, maxleaves=None):
         ctr.n = 0
         m.Sequence.__init__ = counting_init
         try:
-            child = do_move(move, parent, F, fk)
+            with core.istate(seq + move + fk):       # the interpreter state around the move is a function of (sequence, move, container)
+                child = do_move(move, parent, F, fk)
         except C.Truncated as e:
             return ("truncated", str(e), parent, before)
         except C.Divergence:
